@@ -143,9 +143,9 @@ type regWorld struct {
 	phase    string
 	inflight []*pullTrace
 	finished chan *pullResult // results of the pulls of the current attempt
-	attempt  int            // index of the current attempt
-	pullsOf  map[string]int // current attempt: layer digest -> number of pulls whose model has the layer
-	touched  map[string]bool // layers some earlier attempt has requested
+	attempt  int              // index of the current attempt
+	pullsOf  map[string]int   // current attempt: layer digest -> number of pulls whose model has the layer
+	touched  map[string]bool  // layers some earlier attempt has requested
 	desc     []string
 	info     map[string]int
 }
